@@ -48,10 +48,12 @@ def run_real(sc, base, timeout=2, fork_on_hang=False, passes=None, mode='each'):
     spec = os.path.join(base, 'spec-%s.json' % os.path.basename(work))
     log = spec + '.log'
     with open(spec, 'w') as f:
-        json.dump({'names': names, 'rules': sc['rules'], 'log': log, 'fork_on_hang': fork_on_hang, 'noise': sc.get('noise', 0), 'slow_s': sc.get('slow_s', 1.2)}, f)
+        json.dump({'names': names, 'rules': sc['rules'], 'log': log, 'fork_on_hang': fork_on_hang, 'noise': sc.get('noise', 0), 'slow_s': sc.get('slow_s', 1.2), 'hang_writes': bool(sc.get('hang_writes'))}, f)
     script = os.path.join(work, 'test.sh')
     with open(script, 'w') as f:
-        f.write('#!/bin/sh\nexec /venv/bin/python %s %s\n' % (os.path.join(os.path.dirname(os.path.abspath(__file__)), 'testscript.py'), spec))
+        # the pid is noted by the shell at once (the instrumented test itself needs ~0.1 s to start): a test that is
+        # abandoned right after its start is still known to the harness
+        f.write('#!/bin/sh\necho $$ >> %s.pids\nexec /venv/bin/python %s %s\n' % (log, os.path.join(os.path.dirname(os.path.abspath(__file__)), 'testscript.py'), spec))
     os.chmod(script, 0o755)
     o = RealObs()
     o.names, o.work, o.tmpd = names, work, tmpd
@@ -120,7 +122,16 @@ def run_real(sc, base, timeout=2, fork_on_hang=False, passes=None, mode='each'):
             except ValueError:
                 pass
     time.sleep(0.15)
-    o.alive = [r['pid'] for r in o.log if pid_alive(r['pid'])] + [r['child'] for r in o.log if r.get('child') and pid_alive(r['child'])]
+    early = []
+    if os.path.exists(log + '.pids'):
+        for line in open(log + '.pids'):
+            if line.strip().isdigit():
+                early.append(int(line))
+        os.remove(log + '.pids')
+    o.started_pids = early
+    known = {r['pid'] for r in o.log}
+    o.alive = [r['pid'] for r in o.log if pid_alive(r['pid'])] + [r['child'] for r in o.log if r.get('child') and pid_alive(r['child'])] \
+        + [pid for pid in early if pid not in known and pid_alive(pid)]
     for pid in o.alive:
         try:
             os.kill(pid, 9)
